@@ -19,6 +19,14 @@ func (w *seqWorld) resolveKey(k string, v int64) string {
 			if strings.HasPrefix(x, "issuer/") {
 				cand = append(cand, x)
 			}
+		case "@hashtile":
+			if strings.HasPrefix(x, "tile/0/") || strings.HasPrefix(x, "tile/1/") {
+				cand = append(cand, x)
+			}
+		case "@datatile":
+			if strings.HasPrefix(x, "tile/data/") {
+				cand = append(cand, x)
+			}
 		default:
 			cand = append(cand, x)
 		}
@@ -56,6 +64,13 @@ func (w *seqWorld) tamper(c0 *seqCmd) {
 			d[i] ^= 0x01
 			o.data = d
 			applied = "flip"
+		}
+	case "rollback":
+		// put back an earlier content of the same key (an older, validly signed checkpoint; a discarded staging bundle)
+		if vs := w.versions[c.Key]; len(vs) > 0 {
+			v := vs[int(c.V)%len(vs)]
+			w.objects[c.Key] = &storedObj{data: append([]byte(nil), v.data...), opts: v.opts}
+			applied = "rollback"
 		}
 	case "copyfrom":
 		if src, ok2 := w.objects[c.Name]; ok2 {
